@@ -19,3 +19,38 @@ Print Assumptions C01_hc_any_object.
 Example C01_nonvacuous :
   exists b, compress_fast_list (repeat 7 40%nat) (fun _ => 0) 56 = COk b /\ len b = 23.
 Proof. eexists. vm_compute. split; reflexivity. Qed.
+
+(* ---- the match-extension loops of the translated fast compressor (GenCompressBodyLoop.v; the two loops
+   occur literally in the function generated on this run: GenCompressBodyTie.v) ----
+   the backward loop takes exactly the model's bwd steps, the 8-bytes-at-a-time forward loop stops exactly
+   where the model's fwd does, and the bit trick it rests on is proved: for two 8-byte little-endian loads,
+   TrailingZeros64(x ^ y) >> 3 is the number of equal leading bytes (8 when the xor is zero). *)
+From LZ4V Require Import GoT GenCompressBody GenCompressBodyProofs GenCompressBodyLoop GenCompressBodyTie.
+Theorem C01_translated_backward_extension :
+  forall (src ssp : list Z) (dl dsp : Z) (get : Z -> Z),
+    (forall i : Z, 0 <= i < zlen src -> get i = znth src i) -> zlen src < 2 ^ 61 ->
+  forall (fuel : nat) (s : state) (p tf lL m : Z),
+    frame src ssp dl dsp s -> f_si s = p -> f_tOff s = tf -> f_lLen s = lL -> f_mLen s = m ->
+    0 <= lL <= p -> p <= zlen src -> - 2 ^ 61 <= tf < zlen src -> 0 <= m < 2 ^ 61 ->
+    (Z.to_nat lL < fuel)%nat ->
+    exists t : state, bwd_loop fuel s = Fall t /\ frame src ssp dl dsp t /\ bwd_post get p tf lL m s t.
+Proof. exact bwd_exec. Qed.
+Print Assumptions C01_translated_backward_extension.
+Theorem C01_translated_forward_extension :
+  forall (src ssp : list Z) (dl dsp : Z) (get : Z -> Z),
+    (forall i : Z, 0 <= i < zlen src -> get i = znth src i) ->
+    (forall i : Z, 0 <= i < zlen src -> 0 <= get i < 256) -> zlen src < 2 ^ 61 ->
+  forall (fuel : nat) (s : state) (p off : Z),
+    frame src ssp dl dsp s -> f_si s = p -> f_off s = off -> f_sn s = zlen src - 14 ->
+    1 <= off <= p -> p <= zlen src -> (Z.to_nat (zlen src - p) < fuel)%nat ->
+    exists t : state, fwd_loop fuel s = Fall t /\ frame src ssp dl dsp t /\ keepsF s t /\
+      (forall F : nat, enough (zlen src) F p -> f_si t = fwd get (zlen src) F p off).
+Proof. exact fwd_exec. Qed.
+Print Assumptions C01_translated_forward_extension.
+Theorem C01_trailing_zeros_of_xor_counts_equal_bytes : forall get a b,
+  (forall i, 0 <= i < 8 -> 0 <= get (a + i) < 256 /\ 0 <= get (b + i) < 256) ->
+  let x := Z.lxor (le_val (sub_from get a 8)) (le_val (sub_from get b 8)) in
+  (x = 0 -> eq_run get 8 a b = 8) /\
+  (x <> 0 -> Z.shiftr (ctz64 x) 3 = eq_run get 8 a b /\ eq_run get 8 a b < 8).
+Proof. exact ctz_xor_eq_run. Qed.
+Print Assumptions C01_trailing_zeros_of_xor_counts_equal_bytes.
